@@ -71,8 +71,9 @@ def parse_reports(stderr):
                 while j + 1 < len(lines) and lines[j].startswith('  ') and lines[j].strip():
                     fn = lines[j].strip(); loc = lines[j + 1].strip().split(' ')[0]
                     frames.append((fn, loc)); j += 2
-                pick = next((f for f in frames if 'cloudwego/netpoll' in f[0] and 'zz_verif' not in f[1]), frames[0] if frames else ('?', '?'))
-                fn = re.sub(r'\(.*?\)$', '', pick[0]); fn = fn.replace('github.com/cloudwego/netpoll/', '').replace('github.com/cloudwego/netpoll.', '')
+                real = [f for f in frames if not f[1].startswith('<')]
+                pick = next((f for f in real if 'cloudwego/netpoll' in f[0] and 'zz_verif' not in f[1]), (real or frames or [('?', '?')])[0])
+                fn = re.sub(r'\(\)$', '', pick[0]); fn = fn.replace('github.com/cloudwego/netpoll/', '').replace('github.com/cloudwego/netpoll.', '')
                 fn = fn.replace('(*', '').replace(')', '')
                 loc = os.path.basename(pick[1].rsplit(':', 1)[0]) + ':' + pick[1].rsplit(':', 1)[-1] if ':' in pick[1] else pick[1]
                 accs.append((op, fn, loc))
@@ -142,7 +143,8 @@ def measure_function_coverage(rep, wd, rows, seed):
         with common.Lock('go'):
             ov = common.write_overlay(common.inpkg_files())
             out = os.path.join(common.BIN, 'raceh-cover')
-            rc, o = common.sh(['go', 'build', '-tags', 'verif', '-overlay', ov, '-cover', '-coverpkg=github.com/cloudwego/netpoll,github.com/cloudwego/netpoll/mux', '-o', out, './cmd/raceh'],
+            rc, o = common.sh(['go', 'build', '-tags', 'verif', '-overlay', ov, '-cover', '-coverpkg=github.com/cloudwego/netpoll,github.com/cloudwego/netpoll/mux', '-o', out] +
+                              (['-modfile', os.path.join(common.WORK, 'go.scratch.mod')] if common.REPO != '/repo' else []) + ['./cmd/raceh'],
                               cwd=common.GO, env=common.go_env(), timeout=900)
         if rc != 0:
             rep.notes.append('function coverage not measured: cover build failed: ' + o[-300:]); return
@@ -179,7 +181,7 @@ def measure_function_coverage(rep, wd, rows, seed):
 
 # ---------------------------------------------------------------- main
 
-def report_races(rep, results, label=''):
+def report_races(rep, results, label='', suffix=''):
     sigs = collections.OrderedDict()
     for r in results:
         for sig, text in r['reports']:
@@ -187,7 +189,7 @@ def report_races(rep, results, label=''):
     for sig, hits in sigs.items():
         r, text = hits[0]
         runs = collections.OrderedDict((h[0]['cmd'], h[0]) for h in hits)
-        rep.violation('%sGo data race (%d report(s) in %d run(s)): %s' % (label, len(hits), len(runs), sig),
+        rep.violation('%sGo data race (%d report(s) in %d run(s)): %s%s' % (label, len(hits), len(runs), sig, suffix),
                       ['run seed=%d n=%d which=%s' % (x['seed'], x['n'], x['which'] or '-') for x in list(runs.values())[:5]] +
                       ['sig ' + sig, '# re-run by hand: cd /verif && GORACE=halt_on_error=0 ' + r['cmd'], '# race detector report:'] + ['| ' + l for l in text.split('\n')], tag='race-')
     return sigs
@@ -195,7 +197,7 @@ def report_races(rep, results, label=''):
 def run(rep):
     wd = os.path.join(common.WORK, PROP); shutil.rmtree(wd, ignore_errors=True); os.makedirs(wd)
     thorough = rep.tier == 'thorough'
-    shards, n = (16, 150) if thorough else (6, 16)
+    shards, n = (16, 100) if thorough else (6, 16)
     with ThreadPoolExecutor(max_workers=2) as ex:
         fproof = ex.submit(common.proof_stage, rep, MODULES, ['npdriver'])
         fbuild = ex.submit(common.build_harness, 'raceh', True)
@@ -219,7 +221,14 @@ def run(rep):
         results += run_many(binary, ejobs)
     counts = collections.Counter()
     for r in results: counts.update(r['counts'])
-    sigs = report_races(rep, results)
+    suffix = ''
+    if proof_broken and bad:
+        suffix = ' [the proof stage broke as well: %d access(es) of the regenerated table do not comply with the policy, first (%s, %s, %s), discipline of the field: %s]' % (
+            len(bad), bad[0]['field'], bad[0]['fn'], bad[0]['kind'], bad[0]['disc'])
+        rep.cov['undisciplined_accesses'] = ['(%s, %s, %s) discipline=%s' % (b['field'], b['fn'], b['kind'], b['disc']) for b in bad[:40]]
+    elif proof_broken:
+        suffix = ' [the proof stage broke as well: %s]' % proof_broken.split('\n')[0][:200]
+    sigs = report_races(rep, results, suffix=suffix)
     crashed = [r for r in results if r['crashed']]
     rep.cov.update(evaluations=sum(counts.values()), distinct_nontrivial=len(set((w, r['seed']) for r in results for w, c in r['counts'].items() if c)),
                    rule='one evaluation = one execution of a workload scenario (parameters derived from the shard seed) on the real code built with -race; '
